@@ -123,6 +123,7 @@ type ClauseStatus struct {
 	Status    string `json:"status"`
 	Solver    string `json:"solver"`
 	Ms        int64  `json:"ms"`
+	MaxMs     int64  `json:"max_instance_ms"`
 	Implicit  bool   `json:"implicit,omitempty"`
 	Pos       string `json:"pos,omitempty"`
 }
@@ -351,6 +352,9 @@ func runCheck(cmd, prop, tier string, seed int, only, dump string, verbose bool)
 		}
 		a.cs.Instances++
 		a.cs.Ms += r.Ms
+		if r.Ms > a.cs.MaxMs {
+			a.cs.MaxMs = r.Ms
+		}
 		a.res = append(a.res, r)
 		if r.Status == "discharged" {
 			bySolver[r.Solver]++
@@ -389,8 +393,11 @@ func runCheck(cmd, prop, tier string, seed int, only, dump string, verbose bool)
 	if cmd == "claim" {
 		var claimed []string
 		for _, k := range order {
-			if clauses[k].cs.Status == "discharged" {
+			// claim only what discharges well inside the quick budget (stability margin)
+			if clauses[k].cs.Status == "discharged" && clauses[k].cs.MaxMs < 3000 {
 				claimed = append(claimed, k)
+			} else if clauses[k].cs.Status == "discharged" {
+				clauses[k].cs.Status = fmt.Sprintf("discharged but slow (%d ms): not claimed", clauses[k].cs.MaxMs)
 			}
 		}
 		sort.Strings(claimed)
